@@ -10,8 +10,43 @@ def _kind(lines, k):
 def _case(ln):
     return ln.split("|", 1)[0]
 
-def post(lines, verdicts):
+def _scan_flags(path):
+    """const FLAG_<NAME>: u8 = 0x..; lines of a request source file -> {NAME: value}"""
+    import re
+    try:
+        src = open(path).read()
+    except OSError:
+        return None
+    return {m.group(1): int(m.group(2), 16) for m in re.finditer(r"const FLAG_(\w+):\s*u8\s*=\s*0x([0-9a-fA-F]+);", src)}
+
+def _census(lines, verdicts):
+    """the model's private flag tables (printed by the driver in the C verdict) against the source"""
+    import re
     out = []
+    cv = [v for ln, v in zip(lines, verdicts) if ln.startswith("C ") and v and v.startswith("ok ")]
+    if not cv:
+        return [("diff", "C", "diff census case missing or not ok")]
+    tables = dict(re.findall(r"(\w+)=(\S+)", cv[0][3:]))
+    model = {k: {n: int(x, 16) for n, x in (e.split(":") for e in tables.get(k, "").split(",") if e)} for k in ("qflags", "bflags")}
+    for key, path in (("qflags", "/repo/scylla-cql/src/frame/request/query.rs"), ("bflags", "/repo/scylla-cql/src/frame/request/batch.rs")):
+        src = _scan_flags(path)
+        if src is None or not src:
+            out.append(("diff", "C", "diff census: cannot scan FLAG_ constants in " + path))
+        elif src != model[key]:
+            out.append(("diff", "C", "diff census: %s FLAG_ constants %r differ from the model's table %r" % (path, src, model[key])))
+    try:
+        src = open("/repo/scylla-cql/src/frame/request/mod.rs").read()
+        m = re.search(r"pub enum RequestOpcode \{(.*?)\}", src, re.S)
+        variants = re.findall(r"(\w+)\s*=\s*0x([0-9A-Fa-f]+)", m.group(1)) if m else []
+        want = [("Startup", 1), ("Options", 5), ("Query", 7), ("Prepare", 9), ("Execute", 10), ("Register", 11), ("Batch", 13), ("AuthResponse", 15)]
+        if [(n, int(x, 16)) for n, x in variants] != want:
+            out.append(("diff", "C", "diff census: RequestOpcode variants %r differ from the model's 8 request kinds" % (variants,)))
+    except OSError:
+        out.append(("diff", "C", "diff census: cannot read request/mod.rs"))
+    return out
+
+def post(lines, verdicts):
+    out = _census(lines, verdicts)
     tier_thorough = len(lines) > 150000
     # scenarios that did not run: counted, capped (never silently ok)
     n = _kind(lines, "N")
@@ -24,7 +59,11 @@ def post(lines, verdicts):
             print("WARNING: C09 case `%s` was SKIPPED (not enough free memory): the real 4 GiB body is not tied in "
                   "this run; the 2^32 boundary is still tied by the M cases" % _case(ln).strip())
     # per-kind floors: what the evidence claims must really have been exercised
-    floors = {"Q": 8000, "E": 7000, "B": 7000, "P": 1000, "S": 1000, "R": 1000, "A": 800, "O": 100, "M": 18, "N": 30}
+    for ln in _kind(lines, "G"):
+        if "| skipped" in ln:
+            print("WARNING: C09 case `%s` was SKIPPED (not enough free memory)" % _case(ln).strip())
+    floors = {"Q": 7000, "E": 6000, "B": 6000, "P": 900, "S": 900, "R": 900, "A": 700, "O": 100, "M": 18, "N": 30,
+              "V": 4000, "G": 25, "C": 1}
     for k, fl in floors.items():
         have = [ln for ln in _kind(lines, k) if "| skip-env" not in ln]
         if len(have) < fl:
@@ -47,6 +86,20 @@ def post(lines, verdicts):
     for want in ("err body-too-long", "len ffffffff ffffffff", "err snap"):
         if not [ln for ln in _kind(lines, "M") if "| " + want in ln]:
             out.append(("diff", "M", "diff tie not exercised: no M case observed `%s`" % want))
+    # typed rows: every row kind, and every refusal class, must have been exercised
+    v = _kind(lines, "V")
+    for rk in ("u", "z", "t", "s", "v", "b", "r", "mbs", "mbr", "mhs", "mhr"):
+        if sum(1 for ln in v if ln.split(" ", 2)[1] == rk) < 40:
+            out.append(("diff", "V", "diff tie not exercised: fewer than 40 typed rows of kind " + rk))
+    for cls in ("wrong-column-count", "value-missing", "no-column", "column-failed", "too-many-values"):
+        if sum(1 for ln in v if "| err row " + cls in ln) < 4:
+            out.append(("diff", "V", "diff tie not exercised: fewer than 4 typed rows refused with " + cls))
+    if sum(1 for ln in v if "| ok " in ln) < 1500:
+        out.append(("diff", "V", "diff tie not exercised: fewer than 1500 typed rows bound and framed"))
+    g = _kind(lines, "G")
+    for w in ("p", "q", "a", "c", "b"):
+        if sum(1 for ln in g if ln.startswith("G %s 8000000" % w) and "| err " in ln) < 2:
+            out.append(("diff", "G", "diff tie not exercised: 2^31 refusals of component kind " + w))
     comp = {"n": 0, "l": 0, "s": 0}
     for ln in lines:
         f = ln.split(" ", 3)
@@ -63,6 +116,9 @@ def post(lines, verdicts):
     for tag in ("Q/", "E/2/", "B/c/"):
         if sum(ln.count(" " + tag) for ln in ok_n) < 30:
             out.append(("diff", "N", "diff tie not exercised: fewer than 30 session-level %s frames" % tag))
+    for tag, fl in (("O:", 30), ("S/", 30), ("R/2/", 30)):
+        if sum(ln.count(" " + tag) for ln in ok_n) < fl:
+            out.append(("diff", "N", "diff tie not exercised: fewer than %d connection-setup %s frames" % (fl, tag)))
     for ext in ("0", "1"):
         if not [ln for ln in ok_n if "| e2e " + ext + " " in ln]:
             out.append(("diff", "N", "diff tie not exercised: no e2e scenario with metadata-id extension = " + ext))
@@ -86,7 +142,12 @@ def _extra(lines, verdicts):
             "refused_by_implementation": refused, "cases_over_100k_chars": big,
             "batch_modes": {m: sum(1 for ln in b if ln.split(" ", 4)[3:4] == [m]) for m in ("c", "v", "a")},
             "e2e_scenarios": len(n), "e2e_scenarios_not_run_env": sum(1 for ln in n if "| skip-env" in ln),
-            "e2e_session_frames_checked": sum(ln.count(":04") for ln in n if "| e2e " in ln),
+            "e2e_session_frames_checked": sum(ln.count(" Q/") + ln.count(" E/2/") + ln.count(" B/c/") for ln in n if "| e2e " in ln),
+            "typed_rows": len(_kind(lines, "V")),
+            "typed_rows_refused": sum(1 for ln in _kind(lines, "V") if "| err row" in ln),
+            "G_cases_skipped_for_memory": sum(1 for ln in _kind(lines, "G") if "| skipped" in ln),
+            "G_cases_run": sum(1 for ln in _kind(lines, "G") if "| skipped" not in ln),
+            "e2e_setup_frames_checked": sum(ln.count(" O:") + ln.count(" S/") + ln.count(" R/2/") for ln in n if "| e2e " in ln),
             "L_cases_skipped_for_memory": sum(1 for ln in _kind(lines, "L") if "| skipped" in ln),
             "L_cases_run": sum(1 for ln in _kind(lines, "L") if "| skipped" not in ln),
             "set_stream_calls_checked": sum(1 for ln in lines if "| ok " in ln)}
@@ -110,12 +171,15 @@ SPEC = {
              "every ok case also calls set_stream(s) and compares the frame after; batch mode a = RawBatchValuesAdapter "
              "(BatchValues + one context per statement, as the driver); M = make() of a body of untouched zero bytes at "
              "the 2^32 boundary (sizes only); N = e2e: real Session against mocknode, 10 session-level calls per scenario, "
-             "captured frames parsed by the extracted independent parser; L (thorough) = real 4 GiB batch body.  "
+             "captured frames parsed by the extracted independent parser, incl. the OPTIONS/STARTUP/REGISTER frames of "
+             "connection setup; L (thorough) = real 4 GiB batch body; V = typed rows through the built-in SerializeRow "
+             "impls (11 row kinds, 5 value carriers, 3 column types) + from_serializable, then an EXECUTE frame; "
+             "G = one component of untouched zero bytes at the 2^31 boundary; C = census of protocol constants.  "
              "non-trivial = every case except OPTIONS and not-run scenarios; distinct = distinct case lines"),
     "nontrivial": _nontrivial,
     "extra_coverage": _extra,
     "post": post,
-    "min_cases": {"quick": 38000, "thorough": 280000},
+    "min_cases": {"quick": 39000, "thorough": 290000},
     "trusted_base": [
         "Model/Request.v PART 2 (parse_frame / p_request) is the specification: transcribed by hand from the CQL binary protocol v4 document sections 2, 3, 4.1.1-4.1.8, 5 and ScyllaDB's result-metadata-id extension of EXECUTE",
         "strings are modelled as their UTF-8 bytes (validity is a Rust type invariant, not modelled)",
